@@ -99,6 +99,8 @@ def run_native_only(ob):
     sys.setprofile(_profile)
     try:
         ok, info, _u = native(ob, {})
+    except Exception as e:  # noqa: BLE001
+        ok, info = False, "native run raised %s: %s" % (type(e).__name__, e)
     finally:
         sys.setprofile(None)
     n = getattr(ob, "ncases", 1)
